@@ -36,6 +36,12 @@ def corpus():
         dict(base, ops=[['lop', 'Log', 'append', 'debug file x'], ['save'], ['lop', 'Log', 'append', 'info file y'], ['ack', True], ['save'], ['ack', True]]),
         dict(base, ops=[['lop', 'Log', 'pop'], ['save'], ['ack', True]]),
         dict(base, ops=[['assign', 'NumCPUs', 8], ['save'], ['ack', False], ['save'], ['ack', True]]),
+        # two saves outstanding that both carry the same list; it is edited between the two answers (seeded change C10-1)
+        dict(base, ops=[['lop', 'Log', 'append', 'a'], ['save'], ['assign', 'NumCPUs', 2], ['save'], ['ack', True], ['lop', 'Log', 'append', 'b'],
+                        ['ack', True], ['save'], ['ack', True]]),
+        # a list edited away from and back to what the first of several outstanding SETCONFs carries (the hole in the first repair of F22)
+        dict(base, ops=[['lop', 'Log', 'append', 'a'], ['save'], ['lop', 'Log', 'append', 'b'], ['save'], ['lop', 'Log', 'pop'], ['ack', True], ['ack', True],
+                        ['save'], ['ack', True]]),
     ]
 
 
